@@ -173,6 +173,36 @@ theorem PInv_stepJoinedC {s s' : State} {k : Key} (hi : PInv s) (h : stepJoinedC
   leaves h
   all_goals (subst h; refine PInv_of_same (s := s) rfl rfl rfl rfl rfl rfl ?_ hi; frsame)
 
+theorem PInv_stepWTake {s s' : State}  (hi : PInv s) (h : stepWTake s  = some s') : PInv s' := by
+  unfold stepWTake at h
+  leaves h
+  all_goals (subst h; refine PInv_of_same (s := s) rfl rfl rfl rfl rfl rfl ?_ hi; frsame)
+
+theorem PInv_stepWDo {s s' : State}  (hi : PInv s) (h : stepWDo s  = some s') : PInv s' := by
+  unfold stepWDo at h
+  leaves h
+  all_goals (subst h; refine PInv_of_same (s := s) rfl rfl rfl rfl rfl rfl ?_ hi; frsame)
+
+theorem PInv_stepWBlock {s s' : State}  (hi : PInv s) (h : stepWBlock s  = some s') : PInv s' := by
+  unfold stepWBlock at h
+  leaves h
+  all_goals (subst h; refine PInv_of_same (s := s) rfl rfl rfl rfl rfl rfl ?_ hi; frsame)
+
+theorem PInv_stepFlushStep {s s' : State} {k : Key} (hi : PInv s) (h : stepFlushStep s k = some s') : PInv s' := by
+  unfold stepFlushStep at h
+  leaves h
+  all_goals (subst h; refine PInv_of_same (s := s) rfl rfl rfl rfl rfl rfl ?_ hi; frsame)
+
+theorem PInv_stepCancelWrite {s s' : State} {k : Key} (hi : PInv s) (h : stepCancelWrite s k = some s') : PInv s' := by
+  unfold stepCancelWrite StreamSt.endWrite at h
+  leaves h
+  all_goals (subst h; refine PInv_of_same (s := s) rfl rfl rfl rfl rfl rfl ?_ hi; frsame)
+
+theorem PInv_stepCancelFlush {s s' : State} {k : Key} (hi : PInv s) (h : stepCancelFlush s k = some s') : PInv s' := by
+  unfold stepCancelFlush at h
+  leaves h
+  all_goals (subst h; refine PInv_of_same (s := s) rfl rfl rfl rfl rfl rfl ?_ hi; frsame)
+
 theorem PInv_stepDoFlush {s s' : State}  (hi : PInv s) (h : stepDoFlush s  = some s') : PInv s' := by
   unfold stepDoFlush at h
   leaves h
@@ -194,7 +224,7 @@ theorem PInv_stepAppWrite {s s' : State} {slot : Nat} {bytes : List Nat} (hi : P
   all_goals (subst h; refine PInv_of_same (s := s) rfl rfl rfl rfl rfl rfl ?_ hi; frsame)
 
 theorem PInv_stepWriteStep {s s' : State} {k : Key} (hi : PInv s) (h : stepWriteStep s k = some s') : PInv s' := by
-  unfold stepWriteStep at h
+  unfold stepWriteStep StreamSt.endWrite at h
   leaves h
   all_goals (subst h; refine PInv_of_same (s := s) rfl rfl rfl rfl rfl rfl ?_ hi; frsame)
 
